@@ -286,7 +286,7 @@ Proof. intros l a b H Hab n E. specialize (H n E). lia. Qed.
 
 (* ---------- keys ---------- *)
 Lemma private_key_skipped : forall k, private_key k = true ->
-  is_dedupe_key (dkey_of_atom k) = false /\ key_skip (dkey_of_atom k) = Some true.
+  is_dedupe_key (dkey_of_atom k) = false /\ key_skip (dkey_of_atom k) = true.
 Proof.
   intros k H. destruct k as [| | | |s|]; try discriminate.
   destruct s as [|c1 [|c2 r]]; try discriminate. cbn in H.
@@ -368,7 +368,7 @@ Proof.
     + destruct Hkv as [H1 [H2 _]]. cbn [snd] in *.
       destruct (is_dedupe_key (dkey_of_atom k)).
       * eapply lle_weaken; [apply H2 | lia].
-      * destruct (key_skip (dkey_of_atom k)) as [[|]|]; [apply lle_ok; lia | | apply lle_err].
+      * destruct (key_skip (dkey_of_atom k)); [apply lle_ok; lia |].
         eapply lle_weaken; [apply H1 | lia].
 Qed.
 
@@ -382,7 +382,7 @@ Proof.
     + destruct (private_key_skipped k Hp) as [-> ->]. apply lle_ok; lia.
     + destruct Hkv as [_ [_ H3]]. cbn [snd] in *.
       destruct (is_dedupe_key (dkey_of_atom k)); [apply lle_err|].
-      destruct (key_skip (dkey_of_atom k)) as [[|]|]; [apply lle_ok; lia | | apply lle_err].
+      destruct (key_skip (dkey_of_atom k)); [apply lle_ok; lia |].
       eapply lle_weaken; [apply (H3 []) | lia].
 Qed.
 
@@ -398,7 +398,7 @@ Proof.
       * destruct (private_key_skipped k Hp) as [-> ->]. apply lle_ok; lia.
       * destruct Hkv as [H1 _]. cbn [snd] in *.
         destruct (is_dedupe_key (dkey_of_atom k)); [apply lle_err|].
-        destruct (key_skip (dkey_of_atom k)) as [[|]|]; [apply lle_ok; lia | | apply lle_err].
+        destruct (key_skip (dkey_of_atom k)); [apply lle_ok; lia |].
         eapply lle_weaken; [apply H1 | lia].
 Qed.
 
@@ -605,27 +605,27 @@ Proof.
 Qed.
 
 Lemma path_key_facts : forall k, path_key_ok k = true ->
-  is_dedupe_key (KStr k) = false /\ key_skip (KStr k) = Some false.
+  is_dedupe_key (KStr k) = false /\ key_skip (KStr k) = false.
 Proof.
   intros k H. unfold path_key_ok in H. apply is_prefix_app in H. destruct H as [r ->].
   split; reflexivity.
 Qed.
 
 Lemma cat_key_facts : forall k, cat_key_ok k = true ->
-  is_dedupe_key (KStr k) = false /\ key_skip (KStr k) = Some false.
+  is_dedupe_key (KStr k) = false /\ key_skip (KStr k) = false.
 Proof.
   intros k H. unfold cat_key_ok in H. apply andb_prop in H. destruct H as [H1 H2].
   apply negb_true_iff in H1. split; [assumption|].
-  destruct (key_skip (KStr k)) as [[|]|]; try discriminate. reflexivity.
+  apply negb_true_iff in H2. assumption.
 Qed.
 
 Lemma map_len_plain : forall f k i d r,
-  is_dedupe_key k = false -> key_skip k = Some false ->
+  is_dedupe_key k = false -> key_skip k = false ->
   map_len f ((k, i, d) :: r) = ladd (f d) (map_len f r).
 Proof. intros f k i d r H1 H2. cbn [map_len]. rewrite H1, H2. reflexivity. Qed.
 
 Lemma map_len_skip : forall f k i d r,
-  is_dedupe_key k = false -> key_skip k = Some true ->
+  is_dedupe_key k = false -> key_skip k = true ->
   map_len f ((k, i, d) :: r) = ladd (LOk 0) (map_len f r).
 Proof. intros f k i d r H1 H2. cbn [map_len]. rewrite H1, H2. reflexivity. Qed.
 
@@ -775,7 +775,7 @@ Proof.
     + change (sumcnt t2 []) with 0. rewrite Nat.add_0_r. apply idx_paths_bound. assumption.
   - cbn [dv_of_block block_pos]. cbn [block_keys_ok] in K. apply andb_prop in K. destruct K as [K1 K2].
     apply negb_true_iff in K1.
-    destruct (key_skip (KStr cat)) as [[|]|] eqn:S; try discriminate.
+    rename K2 into S.
     rewrite map_len_skip by assumption. change (sumcnt t1 [] + sumcnt t2 []) with 0.
     apply lle_ladd; [apply lle_ok; lia | exact Hr].
 Qed.
@@ -939,7 +939,7 @@ Qed.
 
 (* ---------- positivity: the total is at least every entry's own operations ---------- *)
 Lemma map_len_in : forall f k i d kvs n,
-  In (k, i, d) kvs -> is_dedupe_key k = false -> key_skip k = Some false ->
+  In (k, i, d) kvs -> is_dedupe_key k = false -> key_skip k = false ->
   map_len f kvs = LOk n -> exists a, f d = LOk a /\ a <= n.
 Proof.
   intros f k i d kvs. induction kvs as [|[[k' i'] d'] r IH]; intros n Hin Hd Hs H; [contradiction|].
@@ -986,7 +986,7 @@ Qed.
 
 (* values that contain something _get_item_length counts *)
 Definition plain_key (k : atom) : bool :=
-  negb (is_dedupe_key (dkey_of_atom k)) && match key_skip (dkey_of_atom k) with Some false => true | _ => false end.
+  negb (is_dedupe_key (dkey_of_atom k)) && negb (key_skip (dkey_of_atom k)).
 Definition atom_counts (a : atom) : bool := match a with ANone => false | _ => true end.
 Fixpoint has_leaf (v : value) : bool :=
   match v with
@@ -1025,7 +1025,7 @@ Proof.
     apply orb_prop in E. destruct E as [E|E].
     + apply andb_prop in E. destruct E as [E1 E2]. unfold plain_key in E1.
       apply andb_prop in E1. destruct E1 as [D S]. apply negb_true_iff in D. rewrite D in Ha.
-      destruct (key_skip (dkey_of_atom k)) as [[|]|]; try discriminate.
+      apply negb_true_iff in S. rewrite S in Ha.
       cbn [snd] in Hkv. specialize (Hkv E2 a Ha). lia.
     + specialize (IH E b Hb). lia.
   - intros xs E n Hn. cbn [has_leaf] in E. cbn [dv_of_value item_length] in Hn.
